@@ -131,7 +131,11 @@ public:
         {
             std::vector<Op> p = path_to(id);
             std::string k2, err;
+            // the replay runs constructor, operations and destructor of the real code outside any published transition: a crash in it
+            // is a finding about the code under test (named by the number of the state being rebuilt), not a harness error
+            vx::mark("API-only replay (constructor, operations, destruction) of reachable state number", (uint64_t)id, (uint64_t)p.size());
             bool ok = h.replay(p, k2, err);
+            vx::mark(nullptr);
             ++st.replays;
             st.replay_steps += p.size();
             if (!ok)
